@@ -551,6 +551,7 @@ def _server():
         env = dict(os.environ)
         if "UBSAN_OPTIONS" in env:
             env["UBSAN_OPTIONS"] = "halt_on_error=0:print_stacktrace=0"
+            env["PYTHONMALLOC"] = "malloc"      # CPython object memory visible to ASan as well
         _SERVER = subprocess.Popen([sys.executable, "-u", "-m", "harness.props.c09", "--serve"],
                                    stdin=subprocess.PIPE, stdout=subprocess.PIPE, env=env,
                                    cwd=os.path.dirname(os.path.dirname(os.path.dirname(os.path.abspath(__file__)))))
@@ -1904,6 +1905,23 @@ def expected_verdict(st, env):
     if st.get("expect"):
         return st["expect"] if st["expect"] != "any" else None
     o = OPS[st["op"]]
+    a = st.get("args", {})
+    # wrong-length arrays must be rejected (property text)
+    if st["op"] in ("table.keep_rows", "table.getitem_mask") and a.get("len") != "n":
+        n = env_count(env, a.get("table"), "tc")
+        if n is not None and _len_sym(a["len"], n) != n:
+            return "raise"
+    if st["op"] in ("tree.map_mutations", "tree.ll_map_mutations") and env and env.get("ts"):
+        g = a.get("g") or {}
+        ns = env["ts"]["samples"]
+        n = {"ns": ns, "ns-1": ns - 1, "ns+1": ns + 1, "0": 0, "2ns": 2 * ns}[g.get("len", "ns")]
+        if n != ns or g.get("shape2"):
+            return "raise"
+    if st["op"] in ("table.set_columns_len", "table.append_columns_len") and a.get("len") in ("n-1", "n+1", "2n") \
+            and not a.get("col", "").endswith("_offset") and a.get("col") not in RAGGED_ALL:
+        n = env_count(env, a.get("table"), "tc")
+        if n:                                   # a fixed-width column whose length differs from the others
+            return "raise"
     for pname, kind in o.params:
         if kind == "pos_seq" and pname in st.get("args", {}):
             if st["args"][pname] in ("-1", "L", "L+1", "nan", "inf", "-inf"):
@@ -2500,6 +2518,9 @@ RAGGED = {"nodes": ["metadata"], "edges": ["metadata"], "sites": ["ancestral_sta
 FIXEDCOLS = {"nodes": ["flags", "time", "population", "individual"], "edges": ["left", "right", "parent", "child"],
              "sites": ["position"], "mutations": ["site", "node", "time", "parent"], "individuals": ["flags"],
              "populations": [], "migrations": ["left", "right", "node", "source", "dest", "time"], "provenances": []}
+
+
+RAGGED_ALL = {c for cols in RAGGED.values() for c in cols}
 
 
 class Tables(Monitor):
